@@ -180,6 +180,9 @@ structure Ext where
   /-- a method of the translated package that is outside the subset (reflection, file I/O) and
       returns a list of strings, by its name -/
   strList : GoString → List GoString := fun _ => []
+  /-- `color.PaintWithAttr(sb, text, fg, bg, attr)`: what the builder holds afterwards (the colours are not part of the
+      translation; a theorem states what it assumes about this function) -/
+  paint : GoString → GoString → GoString := fun sb text => sb ++ text
   /-- `base64.StdEncoding.DecodeString` -/
   base64Decode : GoString → GoString × GoErr := fun s => (s, none)
   /-- rounds a `for cond {…}` loop may take -/
